@@ -130,20 +130,41 @@ EncodeComponent(s, allowed) ==
         keepPct == Cardinality(esc) = Count(s, "%")
     IN Flatten([i \in 1..Len(s) |-> IF (up[i] = "%" /\ keepPct) \/ up[i] \in allowed THEN <<up[i]>> ELSE PctOf(up[i])])
 
-\* "/"-rooted target: fragment dropped, path and query encoded separately
-EncodeTarget(full) ==
+\* RFC 3986 5.2.4 as parse_url applies it to the path of an absolute http(s) URL (PoolManager only;
+\* the pool's _encode_target and the bare connection leave dot segments alone).  Done BEFORE the
+\* percent-encoding, so "%2e%2e" is not a dot segment.
+RECURSIVE DotFold(_, _)
+DotFold(segs, out) ==
+    IF segs = <<>> THEN out
+    ELSE IF segs[1] = <<".">> THEN DotFold(Tail(segs), out)
+    ELSE IF segs[1] # <<".", ".">> THEN DotFold(Tail(segs), Append(out, segs[1]))
+    ELSE DotFold(Tail(segs), IF out = <<>> THEN out ELSE SubSeq(out, 1, Len(out) - 1))
+RECURSIVE JoinWith(_, _)
+JoinWith(segs, d) == IF segs = <<>> THEN <<>> ELSE IF Len(segs) = 1 THEN segs[1] ELSE segs[1] \o <<d>> \o JoinWith(Tail(segs), d)
+EndsWith(s, t) == Len(s) >= Len(t) /\ SubSeq(s, Len(s) - Len(t) + 1, Len(s)) = t
+RemoveDotSegments(p) ==
+    LET o1 == DotFold(SplitOn(p, {"/"}), <<>>)
+        o2 == IF p # <<>> /\ p[1] = "/" /\ (o1 = <<>> \/ o1[1] # <<>>) THEN << <<>> >> \o o1 ELSE o1
+        o3 == IF EndsWith(p, <<"/", ".">>) \/ EndsWith(p, <<"/", ".", ".">>) THEN Append(o2, <<>>) ELSE o2
+        r == JoinWith(o3, "/")
+    IN IF r = <<>> THEN <<"/">> ELSE r          \* Url.request_uri: an empty path is sent as "/"
+
+\* "/"-rooted target: fragment dropped, path and query encoded separately; `dots`: remove dot segments first
+EncodeTarget(full, dots) ==
     LET h == FirstFrom(full, {"#"}, 1)
         nofrag == SubSeq(full, 1, h - 1)
         q == FirstFrom(nofrag, {"?"}, 1)
-        path == SubSeq(nofrag, 1, q - 1)
+        path0 == SubSeq(nofrag, 1, q - 1)
+        path == IF dots THEN RemoveDotSegments(path0) ELSE path0
     IN EncodeComponent(path, PathChars)
        \o (IF q <= Len(nofrag) THEN <<"?">> \o EncodeComponent(SubSeq(nofrag, q + 1, Len(nofrag)), QueryChars) ELSE <<>>)
 
 GivenTarget(req) == (IF req.slash THEN <<"/">> ELSE <<>>) \o req.url
-\* the bare connection takes the target verbatim ("" means "/"); pool and manager re-encode it
+\* the bare connection takes the target verbatim ("" means "/"); the pool re-encodes it; the manager parses
+\* the absolute URL (RFC 3986 normalisation: dot segments removed, then encoded) and the pool re-encodes that
 NormTarget(level, req) ==
     IF level = "conn" THEN (IF GivenTarget(req) = <<>> THEN <<"/">> ELSE GivenTarget(req))
-    ELSE EncodeTarget(<<"/">> \o req.url)
+    ELSE EncodeTarget(<<"/">> \o req.url, level = "mgr")
 
 -----------------------------------------------------------------------------
 (* 3  Header lines                                                            *)
@@ -289,12 +310,23 @@ BadName(n) == n = <<>> \/ n[1] \in WS \/ Has(n, {":", CR, LF, NA})
 BadMethod(m) == Has(m, WS \cup EOL \cup {NA})
 BadTarget(level, req) == level = "conn" /\ Has(GivenTarget(req), WS \cup EOL \cup {NA})
 
-\* What MUST be refused before any write: requests that have no faithful one-message serialisation
-MustRefuse(level, req) ==
-    \/ BadMethod(req.method)
-    \/ BadTarget(level, req)
-    \/ \E i \in 1..Len(req.hdrs) : ~req.hdrs[i].skip /\ (BadName(req.hdrs[i].n) \/ BreaksLine(req.hdrs[i].v))
-    \/ BadSkip(req)
+\* What MUST be refused before any write: requests that have no faithful one-message serialisation.
+\* RefuseReasons names every rule that applies (the harness demands that each rule was exercised at
+\* every entry point: a rule nobody triggers is a vacuous rule).
+RefuseReasons(level, req) ==
+    (IF BadMethod(req.method) THEN {"BadMethod"} ELSE {})
+    \cup (IF BadTarget(level, req) THEN {"BadTarget"} ELSE {})
+    \cup (IF \E i \in 1..Len(req.hdrs) : ~req.hdrs[i].skip /\ BadName(req.hdrs[i].n) THEN {"BadName"} ELSE {})
+    \cup (IF \E i \in 1..Len(req.hdrs) : ~req.hdrs[i].skip /\ BreaksLine(req.hdrs[i].v) THEN {"BreaksLine"} ELSE {})
+    \cup (IF BadSkip(req) THEN {"BadSkip"} ELSE {})
+MustRefuse(level, req) == RefuseReasons(level, req) # {}
+ReasonOrder == <<"BadMethod", "BadTarget", "BadName", "BreaksLine", "BadSkip", "H2BadName", "H2BadValue">>
+ReasonTag(S) == LET RECURSIVE J(_)
+                    J(i) == IF i > Len(ReasonOrder) THEN ""
+                            ELSE (IF ReasonOrder[i] \in S THEN ReasonOrder[i] \o "+" ELSE "") \o J(i + 1)
+                IN J(1)
+\* DESIGN.md calls the complement Accept: the requests that have a faithful serialisation
+Accept(level, req) == ~MustRefuse(level, req)
 
 \* What MUST be sent exactly: every field is plain printable ASCII in the right shape
 \* (pool and manager re-parse a target starting with "//" as an authority: left open)
@@ -348,7 +380,7 @@ Judge(level, req, raised, wire) ==
 
 \* Accept(req) => Parse(Serialize(req)) = <<req'>> : exactly one message, req' = req up to the normalisation
 ParseSerializeIdentity(r) ==
-    ~MustRefuse(r.level, r) =>
+    Accept(r.level, r) =>
         LET s == Serialize(r.level, r)
             ms == Parse(s) IN
         /\ Len(ms) = 1 /\ ms[1].ok
@@ -383,14 +415,15 @@ AutoOnlyWhenAbsent(r) ==
 
 \* percent-encoding is idempotent (the manager encodes, then the pool encodes again)
 EncodeIdempotent(r) == r.level \in {"pool", "mgr"} =>
-    EncodeTarget(NormTarget(r.level, r)) = NormTarget(r.level, r)
+    EncodeTarget(NormTarget(r.level, r), FALSE) = NormTarget(r.level, r)
 
 -----------------------------------------------------------------------------
 (* 8  HTTP/2 header validity (HTTP2Connection.putheader)                       *)
 
 H2NameOK(n) == n # <<>> /\ AllIn(LowerSeq(n), TChar \ Upper)
 H2ValueBad(v) == Has(v, {NUL, CR, LF}) \/ (v # <<>> /\ (v[1] \in WS \/ v[Len(v)] \in WS))
-H2MustRefuse(h) == ~H2NameOK(h.n) \/ H2ValueBad(h.v)
+H2RefuseReasons(h) == (IF ~H2NameOK(h.n) THEN {"H2BadName"} ELSE {}) \cup (IF H2ValueBad(h.v) THEN {"H2BadValue"} ELSE {})
+H2MustRefuse(h) == H2RefuseReasons(h) # {}
 H2Expect(h) == IF H2MustRefuse(h) THEN "MustRefuse"
                ELSE IF AllIn(h.v, Printable \cup WS) THEN "MustBeExactlyThis" ELSE "Either"
 \* recorded = the (name, value) pairs the connection holds after the call
